@@ -208,6 +208,42 @@ type Manager struct {
 	namespaces     [2]*NamespaceManager
 	users          [2]*UserManager
 	statistics     *StatisticManager
+
+	// reloadMu serializes ReloadNamespacePrepare, ReloadNamespaceCommit and DeleteNamespace:
+	// each of them derives the inactive generation from the active one.
+	reloadMu sync.Mutex
+	// preparedName is the namespace whose prepared config sits in the inactive generation,
+	// valid while reloadPrepared is set. Guarded by reloadMu.
+	preparedName string
+	// slotMu guards namespaces[i], users[i] and the switch: a session may still be reading a
+	// generation through an index it loaded before the last switch while the next prepare or
+	// delete refills that very slot. Generations are immutable once published.
+	slotMu sync.RWMutex
+}
+
+// currentGeneration returns the active namespace manager and user manager as one pair
+func (m *Manager) currentGeneration() (*NamespaceManager, *UserManager) {
+	m.slotMu.RLock()
+	current, _, _ := m.switchIndex.Get()
+	namespaces, users := m.namespaces[current], m.users[current]
+	m.slotMu.RUnlock()
+	return namespaces, users
+}
+
+// publishInactive stores a new inactive generation; switchTo makes it the active one
+func (m *Manager) publishInactive(namespaces *NamespaceManager, users *UserManager) {
+	m.slotMu.Lock()
+	_, other, _ := m.switchIndex.Get()
+	m.namespaces[other] = namespaces
+	m.users[other] = users
+	m.slotMu.Unlock()
+}
+
+func (m *Manager) switchGeneration() {
+	m.slotMu.Lock()
+	_, _, index := m.switchIndex.Get()
+	m.switchIndex.Set(!index)
+	m.slotMu.Unlock()
 }
 
 // NewManager return empty Manager
@@ -261,10 +297,12 @@ func (m *Manager) Close() {
 
 // ReloadNamespacePrepare prepare commit
 func (m *Manager) ReloadNamespacePrepare(namespaceConfig *models.Namespace) error {
+	m.reloadMu.Lock()
+	defer m.reloadMu.Unlock()
+
 	name := namespaceConfig.Name
-	current, other, _ := m.switchIndex.Get()
 	// reload namespace prepare
-	currentNamespaceManager := m.namespaces[current]
+	currentNamespaceManager, currentUserManager := m.currentGeneration()
 
 	nsOld := currentNamespaceManager.GetNamespace(name)
 	var nsChangeIndexOld uint32
@@ -280,16 +318,14 @@ func (m *Manager) ReloadNamespacePrepare(namespaceConfig *models.Namespace) erro
 
 	newNamespaceManager.GetNamespace(name).namespaceChangeIndex = nsChangeIndexOld + 1
 
-	m.namespaces[other] = newNamespaceManager
-
 	// reload user prepare
-	currentUserManager := m.users[current]
 	newUserManager := CloneUserManager(currentUserManager)
 	newUserManager.RebuildNamespaceUsers(namespaceConfig)
-	m.users[other] = newUserManager
+	m.publishInactive(newNamespaceManager, newUserManager)
 	if _, ok := m.statistics.SQLResponsePercentile[name]; !ok {
 		m.statistics.SQLResponsePercentile[name] = NewSQLResponse(name)
 	}
+	m.preparedName = name
 	m.reloadPrepared.Set(true)
 
 	return nil
@@ -297,21 +333,26 @@ func (m *Manager) ReloadNamespacePrepare(namespaceConfig *models.Namespace) erro
 
 // ReloadNamespaceCommit commit config
 func (m *Manager) ReloadNamespaceCommit(name string) error {
-	if !m.reloadPrepared.CompareAndSwap(true, false) {
+	m.reloadMu.Lock()
+	defer m.reloadMu.Unlock()
+
+	// only the namespace that was prepared last can be committed: the inactive generation
+	// holds exactly that change
+	if !m.reloadPrepared.Get() || m.preparedName != name {
 		err := errors.ErrNamespaceNotPrepared
 		log.Warn("commit namespace error, namespace: %s, err: %v", name, err)
 		return err
 	}
+	m.reloadPrepared.Set(false)
 
-	current, _, index := m.switchIndex.Get()
-
-	currentNamespace := m.namespaces[current].GetNamespace(name)
+	currentNamespaceManager, _ := m.currentGeneration()
+	currentNamespace := currentNamespaceManager.GetNamespace(name)
 	if currentNamespace != nil {
 		m.clearBackendConnectPoolMetrics(name)
 		go currentNamespace.Close(true)
 	}
 
-	m.switchIndex.Set(!index)
+	m.switchGeneration()
 
 	// 获取新命名空间并启动探活
 	newNamespace := m.GetNamespace(name)
@@ -321,28 +362,32 @@ func (m *Manager) ReloadNamespaceCommit(name string) error {
 
 // DeleteNamespace delete namespace
 func (m *Manager) DeleteNamespace(name string) error {
-	current, other, index := m.switchIndex.Get()
+	m.reloadMu.Lock()
+	defer m.reloadMu.Unlock()
+
+	currentNamespaceManager, currentUserManager := m.currentGeneration()
 
 	// idempotent delete
-	currentNamespace := m.namespaces[current].GetNamespace(name)
+	currentNamespace := currentNamespaceManager.GetNamespace(name)
 	if currentNamespace == nil {
 		return nil
 	}
 
 	// delete namespace of other
-	currentNamespaceManager := m.namespaces[current]
 	newNamespaceManager := ShallowCopyNamespaceManager(currentNamespaceManager)
 	newNamespaceManager.DeleteNamespace(name)
-	m.namespaces[other] = newNamespaceManager
 
 	// delete users of other
-	currentUserManager := m.users[current]
 	newUserManager := CloneUserManager(currentUserManager)
 	newUserManager.ClearNamespaceUsers(name)
-	m.users[other] = newUserManager
+	m.publishInactive(newNamespaceManager, newUserManager)
+
+	// a pending prepare was built from the generation that is replaced now and its slot has
+	// just been overwritten: it must be prepared again before it can be committed
+	m.reloadPrepared.Set(false)
 
 	// switch namespace manager
-	m.switchIndex.Set(!index)
+	m.switchGeneration()
 
 	// delay recycle resources of current
 	go currentNamespace.Close(true)
@@ -352,32 +397,32 @@ func (m *Manager) DeleteNamespace(name string) error {
 
 // GetNamespace return specific namespace
 func (m *Manager) GetNamespace(name string) *Namespace {
-	current, _, _ := m.switchIndex.Get()
-	return m.namespaces[current].GetNamespace(name)
+	namespaces, _ := m.currentGeneration()
+	return namespaces.GetNamespace(name)
 }
 
 // CheckUser check if user in users
 func (m *Manager) CheckUser(user string) bool {
-	current, _, _ := m.switchIndex.Get()
-	return m.users[current].CheckUser(user)
+	_, users := m.currentGeneration()
+	return users.CheckUser(user)
 }
 
 // CheckPassword check if right password with specific user
 func (m *Manager) CheckPassword(user string, salt, auth []byte) (bool, string) {
-	current, _, _ := m.switchIndex.Get()
-	return m.users[current].CheckPassword(user, salt, auth)
+	_, users := m.currentGeneration()
+	return users.CheckPassword(user, salt, auth)
 }
 
 // CheckHashPassword check if right password with specific user
 func (m *Manager) CheckHashPassword(user string, salt, auth []byte) (bool, string) {
-	current, _, _ := m.switchIndex.Get()
-	return m.users[current].CheckHashPassword(user, salt, auth)
+	_, users := m.currentGeneration()
+	return users.CheckHashPassword(user, salt, auth)
 }
 
 // CheckPassword check if right password with specific user
 func (m *Manager) CheckSha2Password(user string, salt, auth []byte) (bool, string) {
-	current, _, _ := m.switchIndex.Get()
-	return m.users[current].CheckSha2Password(user, salt, auth)
+	_, users := m.currentGeneration()
+	return users.CheckSha2Password(user, salt, auth)
 }
 
 // GetStatisticManager return proxy status to record status
@@ -387,14 +432,14 @@ func (m *Manager) GetStatisticManager() *StatisticManager {
 
 // GetNamespaceByUser return namespace by user
 func (m *Manager) GetNamespaceByUser(userName, password string) string {
-	current, _, _ := m.switchIndex.Get()
-	return m.users[current].GetNamespaceByUser(userName, password)
+	_, users := m.currentGeneration()
+	return users.GetNamespaceByUser(userName, password)
 }
 
 // ConfigFingerprint return config fingerprint
 func (m *Manager) ConfigFingerprint() string {
-	current, _, _ := m.switchIndex.Get()
-	return m.namespaces[current].ConfigFingerprint()
+	namespaces, _ := m.currentGeneration()
+	return namespaces.ConfigFingerprint()
 }
 
 // RecordSessionSQLMetrics record session SQL metrics, like response time, error
